@@ -24,7 +24,7 @@ type Unit struct {
 }
 
 var (
-	reSID  = regexp.MustCompile(`^\[([^\[\]-]+)-(.*)-([A-Za-z0-9$]+)\]$`)
+	reSID  = regexp.MustCompile(`^\[([^\[\]-]+)-(?:(.*)-)?([A-Za-z0-9$]+)\]$`)
 	reProp = regexp.MustCompile(`^F([ABCD]) ([A-Z]{1,2}) (\S{1,12}) (\d+) (\d+) (\d+)$`)
 	reEnd  = regexp.MustCompile(`^F> ([0-9A-Fa-f]{2})$`)
 	rePR   = regexp.MustCompile(`^;PR: (\d{8})$`)
